@@ -622,6 +622,11 @@ def fresh_of_sort(I, sort, name):      # noqa: F811  (extends the basic sorts)
     if sort == 'dvector':       # a vector with a dtype (non-empty or typed empty): no None-dtype fork
         from .vecmodel import fresh_vector
         return fresh_vector(I, name, dtype='dtype')
+    if sort == 'float':              # an arbitrary float (finite, infinite or NaN); payload uninterpreted
+        from .model import PyVal as _P
+        t = z3.Const(fresh_name(name), _P)
+        I.ex.assume(_P.is_PF(t))
+        return VAny(t)
     if sort.startswith('op:'):       # a concrete function of the operator module
         import operator as _operator
         return I.lift(getattr(_operator, sort[3:]))
